@@ -93,6 +93,12 @@ func randEncodeStep(r *plan.Rng, faulty bool) plan.Step {
 			st.Opts = randEncOpts(r)
 		}
 	}
+	if r.Chance(1, 12) {
+		// outputs around the sizes at which buffers are grown, pooled or dropped
+		st.T = []string{"SliceSmall", "SliceString", "SliceInt", "MapStrInt", "SliceIface"}[r.Intn(5)]
+		st.Opts = append(st.Opts, "big")
+		st.N = []int{300, 1200, 2500, 5000, 9000, 20000}[r.Intn(6)] + r.Intn(300)
+	}
 	if faulty && r.Chance(1, 25) {
 		st.T = "Unsupported"
 	}
@@ -110,6 +116,9 @@ func docFor(r *plan.Rng, t string, mutateNum, mutateDen int) []byte {
 	}
 	if r.Chance(1, 8) {
 		doc = dupKeys(doc, stdDoc(ti, int64(r.U64()>>8)))
+	}
+	if r.Chance(1, 6) {
+		doc = nullify(doc, r)
 	}
 	if r.Chance(1, 10) {
 		doc = escapeKey(doc, r)
